@@ -98,7 +98,7 @@ def geometry_roundtrip(cls, option, loop_text, fields_of):
             eng.summaries[c + '.__init__'] = summ
         eng.summaries['Geo_Container.append'] = lambda e, a, k: appended.append(a[1])
         var = ast.unparse(loop.target.elts[1])
-        env = {'n': fresh_int('k'), var: value, 'geo': SObj('Geo_Container', label='geo'), 'f_err': AStr([('lit', '<stderr>')])}
+        env = {MS.tnames(loop)[0]: fresh_int('k'), var: value, 'geo': SObj('Geo_Container', label='geo'), 'f_err': AStr([('lit', '<stderr>')])}
         out = MS.run_stmts(eng, loop.body, env)
         eng.cover('%s-%d' % (cls, had_tag))
         eng.oblige(name + '/the-written-line-is-accepted-by-the-reader', out.kind == 'normal' and len(record) == 1,
@@ -205,7 +205,7 @@ def t_taper(eng):
     w2set = {}
     eng.summaries['Wire.segtype.setter'] = lambda e_, a, k: w2set.__setitem__('segtype', a[1])
     w.fields['taper_min'], w.fields['taper_max'] = 'unset', 'unset'
-    env = {'t': value, 'geo': geo, 'f_err': AStr([('lit', '<stderr>')])}
+    env = {MS.tnames(loop)[0]: value, 'geo': geo, 'f_err': AStr([('lit', '<stderr>')])}
     out = MS.run_stmts(eng, loop.body, env)
     eng.cover('taper%d' % form)
     eng.oblige(name + '/the-written-line-is-accepted-and-names-this-wire-by-its-tag', out.kind == 'normal' and env.get('wire') is w,
@@ -319,7 +319,7 @@ def t_excitation(eng):
         record, regs = [], []
         eng.summaries['Excitation.__init__'] = MS.raising_summary(record, 'Excitation', excs=())
         eng.summaries['Mininec.register_source'] = lambda e, a, k: regs.append(list(a))
-        env = {'p': value, 'v': v, 'm': SObj('Mininec', label='m2'), 'default_excitation': False,
+        env = {MS.tnames(loop)[0]: value, MS.tnames(loop)[1]: v, 'm': SObj('Mininec', label='m2'), 'default_excitation': False,
                'args': MS.args_ns(eng, excitation_pulse=SList([('conc', [value])])), 'f_err': AStr([('lit', '<stderr>')])}
         out = MS.run_stmts(eng, loop.body, env)
         eng.oblige(name + '/pulse-line-is-accepted', out.kind == 'normal' and len(regs) == 1)
@@ -369,7 +369,7 @@ def t_medium(eng):
     # the first medium must have height 0 (the reader insists); this is Medium's own invariant for accepted models
     if first:
         eng.assume(r_cmp('==', h, 0))
-    env = {'n': 0 if first else 1, 'm': value, 'media': SList(), 'rad': {}, 'args': MS.args_ns(eng, boundary=AStr([('fld', None, 'text', 'circular')])),
+    env = {MS.tnames(loop)[0]: 0 if first else 1, MS.tnames(loop)[1]: value, 'media': SList(), 'rad': {}, 'args': MS.args_ns(eng, boundary=AStr([('fld', None, 'text', 'circular')])),
            'f_err': AStr([('lit', '<stderr>')])}
     out = MS.run_stmts(eng, loop.body, env)
     eng.cover('medium%d%d' % (has_next, first))
@@ -429,7 +429,7 @@ def t_rlc_trap(eng):
         return SObj(cls, label='new')
     eng.summaries[cls + '.__init__'] = ctor
     eng.inline.add('parse_floatlist')
-    env = {'l': value, 'loads': SList(), 'f_err': AStr([('lit', '<stderr>')])}
+    env = {MS.tnames(loop)[0]: value, 'loads': SList(), 'f_err': AStr([('lit', '<stderr>')])}
     out = MS.run_stmts(eng, loop.body, env)
     eng.cover('rlc-trap%d' % which)
     eng.oblige(name + '/written-line-is-accepted', out.kind == 'normal' and len(record) == 1, detail='%s %s' % (out.kind, out.exc))
@@ -522,7 +522,7 @@ def t_attach_writer(eng):
             return
         regs = []
         eng.summaries['Mininec.register_load'] = lambda e, a, kw, regs=regs: regs.append(list(a))
-        env = {'x': value, 'm': SObj('Mininec', label='m2'), 'loads': loads, 'used_loads': SSet(None),
+        env = {MS.tnames(loop)[0]: value, 'm': SObj('Mininec', label='m2'), 'loads': loads, 'used_loads': SSet(None),
                'f_err': AStr([('lit', '<stderr>')])}
         out = MS.run_stmts(eng, loop.body, env)
         if out.kind != 'normal' or len(regs) != 1:
@@ -624,7 +624,7 @@ def t_distributed(eng):
     eng.schema[('Geo_Container', 'by_tag')] = 'dict:obj:Wire'
     by_tag = eng.getfield(geo, 'by_tag')
     eng.assume(SV(eng.dict_has(by_tag, term(tag)), 'bool'))          # the re-read model has the same objects (C15/-w ...)
-    env = {'l': value, 'm': m2, 'f_err': AStr([('lit', '<stderr>')])}
+    env = {MS.tnames(loop)[0]: value, 'm': m2, 'f_err': AStr([('lit', '<stderr>')])}
     out = MS.run_stmts(eng, loop.body, env)
     eng.cover('distributed-%d-%d' % (which, all_wires))
     eng.oblige(name + '/written-line-is-accepted', out.kind == 'normal' and len(record) >= 1, detail='%s %s' % (out.kind, out.exc))
@@ -770,7 +770,7 @@ def t_transforms(eng):
         loop = MS.loop_of(eng, 'args.geo_scale')
         calls = []
         eng.summaries['Geo_Container.scale'] = lambda e, a, k: calls.append(list(a))
-        env = {'scl': value, 'geo': SObj('Geo_Container', label='geo2'), 'f_err': AStr([('lit', '<stderr>')])}
+        env = {MS.tnames(loop)[0]: value, 'geo': SObj('Geo_Container', label='geo2'), 'f_err': AStr([('lit', '<stderr>')])}
         out = MS.run_stmts(eng, loop.body, env)
         okc = out.kind == 'normal' and len(calls) == 1
         eng.oblige(name + '/written-line-is-accepted', okc, detail='%s %s' % (out.kind, out.exc))
